@@ -559,7 +559,9 @@ class CSVRecord(Record, ABC):
         try:
             writer = cls._writer[cls]
         except KeyError:
-            writer = csv.DictWriter(cls._res_io, fieldnames=cls.field_names(), delimiter=cls._delimiter)
+            # fields that are not constructor arguments (init=False) are derived from the others and are not stored
+            writer = csv.DictWriter(cls._res_io, fieldnames=cls.field_names(), delimiter=cls._delimiter,
+                                    extrasaction="ignore")
             cls._writer[cls] = writer
 
         writer.writerow(d)
